@@ -67,6 +67,22 @@ func (a rng[V, R]) Contains(v Ver) bool { return a.r.Contains(v.(ver[V]).v) }
 func (a rng[V, R]) String() string      { return a.r.String() }
 func (a rng[V, R]) Raw() any            { return a.r }
 
+// OverwriteInPlace performs *dst = *src on the parsed objects behind two versions of one ecosystem (what a caller does
+// who keeps a Version by value and updates it); false when the objects are not pointers to the same struct type.
+func OverwriteInPlace(dst, src Ver) (ok bool) {
+	defer func() {
+		if recover() != nil {
+			ok = false
+		}
+	}()
+	d, s := reflect.ValueOf(dst.Raw()), reflect.ValueOf(src.Raw())
+	if d.Kind() != reflect.Ptr || s.Kind() != reflect.Ptr || d.IsNil() || s.IsNil() || d.Type() != s.Type() {
+		return false
+	}
+	d.Elem().Set(s.Elem())
+	return true
+}
+
 func isNil(x any) bool {
 	if x == nil {
 		return true
